@@ -11,10 +11,36 @@ import (
 
 func init() { register("C04", c04) }
 
+// splitAlternatives splits a canonical "phi(a|b|…)" into its top-level alternatives.
+func splitAlternatives(c string) []string {
+	if !strings.HasPrefix(c, "phi(") || !strings.HasSuffix(c, ")") {
+		return []string{c}
+	}
+	body := c[4 : len(c)-1]
+	var out []string
+	depth, start := 0, 0
+	for i, ch := range body {
+		switch ch {
+		case '(', '[':
+			depth++
+		case ')', ']':
+			depth--
+		case '|':
+			if depth == 0 {
+				out = append(out, body[start:i])
+				start = i + 1
+			}
+		}
+	}
+	out = append(out, body[start:])
+	sort.Strings(out)
+	return out
+}
+
 func phiEdgeCanons(v ssa.Value) []string {
 	ph, ok := v.(*ssa.Phi)
 	if !ok {
-		return []string{canon(v)}
+		return splitAlternatives(canon(v))
 	}
 	var out []string
 	for _, e := range ph.Edges {
